@@ -105,7 +105,7 @@ def check(ctx):
         p = gen.rand_point(rng, vs)
         a1 = [gen.rand_term(rng, ins, "dyadic", point=p) for _ in range(rng.randint(0, 2))]
         g1 = [gen.rand_term(rng, vs, "dyadic", point=p) for _ in range(rng.randint(1, 3))]
-        mode = rng.choice(["weaker", "only_under_assumptions", "unrelated", "iface"])
+        mode = rng.choice(["weaker", "only_under_assumptions", "same_assumptions", "unrelated", "iface"])
         if mode == "weaker":
             a2 = a1 + [gen.rand_term(rng, ins, "dyadic", point=p)]
             g2 = [(t[0], t[1] + F(rng.randint(0, 4), 2)) for t in g1]
@@ -113,6 +113,21 @@ def check(ctx):
             extra = gen.rand_term(rng, ins, "dyadic", point=p)
             a2 = a1 + [extra]
             g2 = [t for t in [gen.combo(rng, g1 + [extra], F(0))] if t[0]] or g1
+        elif mode == "same_assumptions":
+            # identical, non-empty assumption lists; the guarantee inclusion holds only where those assumptions hold
+            if not a1:
+                a1 = [gen.rand_term(rng, ins, "dyadic", point=p)]
+            a2 = [(dict(t[0]), t[1]) for t in a1]
+            g2 = []
+            for _ in range(rng.randint(1, 2)):
+                gt, at, kk = rng.choice(g1), rng.choice(a1), rng.choice([F(1), F(2), F(1, 2)])
+                lin = dict(gt[0])
+                for x, c in at[0].items():
+                    lin[x] = lin.get(x, F(0)) + kk * c
+                lin = {x: c for x, c in lin.items() if c != 0}
+                if lin:
+                    g2.append((lin, gt[1] + kk * at[1]))
+            g2 = g2 or g1
         else:
             a2 = [gen.rand_term(rng, ins, "dyadic", point=p) for _ in range(rng.randint(0, 2))]
             g2 = [gen.rand_term(rng, vs, "dyadic", point=p) for _ in range(rng.randint(1, 2))]
